@@ -202,10 +202,23 @@ pub fn run(rep: &mut Report, thorough: bool) {
             }
         }
         t.settle();
-        let (out, _) = {
+        // the same configured writer is asked twice: the caller's mappings are configuration, so
+        // the second module list must be the first one again
+        let (out, second) = {
             let _g = dump::DUMP_LOCK.lock().unwrap_or_else(|e| e.into_inner());
-            dump::dump(&o)
+            let (mut w, _guard) = dump::configure(&o);
+            let first = dump::dump_with(&mut w, &mut crate::dest::Dest::plain());
+            t.settle();
+            let second = dump::dump_with(&mut w, &mut crate::dest::Dest::plain());
+            (first, second)
         };
+        if let (Outcome::Ok(a), Outcome::Ok(b2)) = (&out, &second) {
+            let key = |img: &[u8]| -> Vec<(u64, u32, Option<String>, Vec<u8>)> { image::decode(img).modules.unwrap_or_default().iter().map(|m| (m.base, m.size, m.name.clone(), m.cv.clone())).collect() };
+            rep.count("second_dump_module_lists_compared", 1);
+            if key(a) != key(b2) {
+                rep.violation("C08 the module list of a second dump from the same writer differs from the first", json!({"first": key(a).iter().map(|m| (m.2.clone(), format!("{:#x}+{:#x}", m.0, m.1))).collect::<Vec<_>>(), "second": key(b2).iter().map(|m| (m.2.clone(), format!("{:#x}+{:#x}", m.0, m.1))).collect::<Vec<_>>(), "user_mappings": o.user_mappings.len()}));
+            }
+        }
         let case = json!({"files": files.iter().map(|f| json!({"path": f.path, "deleted": f.deleted, "pad": f.pad, "vaddr_bias": f.spec.vaddr_bias, "phdr_note": f.spec.phdr_note.is_some(), "section_note": f.spec.section_note.is_some(), "soname": f.spec.soname, "sections": f.spec.section_table})).collect::<Vec<_>>(), "user_mappings": o.user_mappings.iter().map(|u| format!("{:#x}+{:#x}", u.start, u.size)).collect::<Vec<_>>()});
         match out {
             Outcome::Ok(img) => {
